@@ -508,10 +508,19 @@ impl GroupConfig {
     pub fn input_paths(&self) -> Box<dyn Iterator<Item = Path> + Send> {
         let base_dir = Arc::new(self.base_dir.clone());
         if self.stdin {
+            // Paths are arbitrary bytes, not necessarily valid UTF-8: read them as such.
             Box::new(
                 BufReader::new(stdin())
-                    .lines()
-                    .map(move |s| base_dir.resolve(Path::from(s.unwrap().as_str()))),
+                    .split(b'\n')
+                    .map(|line| line.unwrap())
+                    .map(|mut line| {
+                        // accept CRLF line ends, like `lines()` does
+                        if line.last() == Some(&b'\r') {
+                            line.pop();
+                        }
+                        line
+                    })
+                    .map(move |line| base_dir.resolve(Path::from(Self::os_string_from_bytes(line)))),
             )
         } else {
             Box::new(
@@ -521,6 +530,17 @@ impl GroupConfig {
                     .map(move |p| base_dir.resolve(p)),
             )
         }
+    }
+
+    #[cfg(unix)]
+    fn os_string_from_bytes(bytes: Vec<u8>) -> OsString {
+        use std::os::unix::ffi::OsStringExt;
+        OsString::from_vec(bytes)
+    }
+
+    #[cfg(not(unix))]
+    fn os_string_from_bytes(bytes: Vec<u8>) -> OsString {
+        OsString::from(String::from_utf8_lossy(&bytes).to_string())
     }
 
     /// Returns the input paths in the same canonical form as the paths of the scanned files
